@@ -73,6 +73,11 @@ def gen_cases(rng, tier, count=None):
                     # scales at which a side of the image box crosses a constant of the float format (machine epsilon
                     # 2^-52, float32's 2^-23, 2^-10 .. 2^-8 = typical 'small number' literals, 1)
                     s = float(2.0 ** (int(rng.choice([-52, -52, -23, -10, -8, 0])) + int(rng.integers(-5, 6))))
+                elif rng.random() < 0.45:
+                    # scales at which products of widths (squared norms, volumes) under- or overflow although every
+                    # coordinate is a normal, exactly representable float: 2^-650 .. 2^-300 and 2^300 .. 2^650 (squares of
+                    # widths underflow from about 2^-538 on)
+                    s = float(2.0 ** (int(rng.integers(300, 651) if rng.random() < 0.4 else rng.integers(500, 651)) * (-1 if rng.random() < 0.65 else 1)))
                 b = [0.0] * dim
             if algo == "DOO":
                 s = 1.0
@@ -147,6 +152,23 @@ def gen_cases(rng, tier, count=None):
         c.pop("alias_box", None)  # the image box has its own translation per coordinate
         c["box_kind"] = "dyadic" if exact else "affine"
         c["affine"] = {"s": s, "b": b, "exact": exact}
+        out.append(c)
+    for i in range(96 if tier == "quick" else 960):
+        # pure scalings by 2^-650 .. 2^-520 and 2^480 .. 2^650 for the algorithms that grow deep trees on small
+        # budgets: every coordinate stays a normal, exactly representable float, but squares of widths (norms,
+        # volumes) under- or overflow - anything that looks at a cell's size in absolute terms shows
+        algo = ["StoSOO", "SOO", "SequOOL", "StroquOOL", "T_HOO", "HCT", "Zooming", "DOO_delta"][i % 8]
+        dim = int(rng.integers(1, 3))
+        c = TW.safe_case(rng, algo, tier, part=str(rng.choice(EXACT_PARTS)), dim=dim, n_choices=[128, 150, 200])
+        box = []
+        for _ in range(dim):
+            lo = float(rng.integers(-8, 8)) / 4
+            box.append([lo, lo + float(2.0 ** rng.integers(-2, 2))])
+        e = int(rng.integers(520, 651)) if rng.random() < 0.7 else -int(rng.integers(480, 651))
+        c["box"] = box
+        c.pop("alias_box", None)
+        c["box_kind"] = "dyadic"
+        c["affine"] = {"s": float(2.0 ** -e), "b": [0.0] * dim, "exact": True}
         out.append(c)
     return out
 
